@@ -31,8 +31,15 @@ RULE = ("random .top texts (2-5 atom types, optional bond types/OPLS, comb-rule 
         "list, C6/C12 from 1e-12 to 1e7, [molecules] counts 0-4 with repeats) read "
         "by the real reader and preprocessed by the real code; plus direct calls of the real wildcard search "
         "on random tables over all 16 masks and both directions; a small malformed stream (flag macro as "
-        "parameter, no [defaults], unknown comb-rule, missing type). distinct = hash of the rendered text / "
-        "of (atoms, table); a topology case is non-trivial when it has >= 1 parameterless interaction")
+        "parameter, no [defaults], unknown comb-rule, missing type; sections renamed on the parsed object to names "
+        "that are / are not substrings of 'dihedrals' or type-less). EXHAUSTIVE: the wildcard search on all 16 masks x key "
+        "stored forward/reversed x atoms distinct/palindromic/equal as single-entry tables and on all 16x16 mask pairs x 4 "
+        "storage orientations x 2 atom shapes as two-entry tables, each in both listing directions (2144 tables). Direct "
+        "calls of the real convert_nonbond_to_sig_eps on dyadic tables (eps exact where nb2 is a power of two, sigma "
+        "exactly 2 / 1 / 0.5 on the ratios 64 / 1 / 1/64, (0,0), negative ratios, every 5th table with one raising entry "
+        "of each kind), of lorentz_berthelot_rule / geometric_rule and of gen_pairs for comb-rule 1/2/3 on two-type "
+        "topologies (perfect-square products compared exactly, both type orders). distinct = hash of the rendered text / "
+        "of (atoms, table) / of the numbers; a topology case is non-trivial when it has >= 1 parameterless interaction")
 
 TYPE_POOL = ["CT", "CA", "N", "O", "HC", "P", "S", "C2", "OW"]
 SECTIONS = {"bonds": 2, "angles": 3, "dihedrals": 4, "constraints": 2}
@@ -171,6 +178,14 @@ def gen_topology(rng, malformed=None, big=False):
         topo["comb"] = None
     elif malformed == "unknown-comb-rule":
         topo["comb"] = 5
+    elif malformed == "renamed-sections":
+        # section names the READER never produces (set on the Topology object after reading): the code tests
+        # `inter_type in "dihedrals"` (substring!), `inter_type in [type-less sections]`; only the correspondence looks at these
+        topo["rename"] = {"dihedrals": rng.choice(["dihedral", "hedral", "d", "ihedrals", "dihedralsx", "Dihedrals"])}
+        if rng.random() < 0.5:
+            topo["rename"]["angles"] = rng.choice(["als", "dihe", "angle", "virtual_sites3"])
+        if rng.random() < 0.3:
+            topo["rename"]["constraints"] = rng.choice(["virtual_sites2", "pairs_nb", "ls"])
     return topo
 
 
@@ -251,7 +266,21 @@ def snapshot_nonbond(nbp):
     return sorted(out, key=lambda r: (r[0], r[1]))
 
 
-def run_real(lines):
+def rename_sections(topology, rename):
+    """give interaction sections other names on the parsed Topology object (blocks, every instance, type tables)"""
+    for old, new in rename.items():
+        holders = [blk.interactions for blk in topology.force_field.blocks.values()]
+        holders += [m.molecule.interactions for m in topology.molecules]
+        for inter in holders:
+            if old in inter and new not in inter:
+                items = [(new if k == old else k, v) for k, v in list(inter.items())]
+                inter.clear()
+                inter.update(items)
+        if old in topology.types and new not in topology.types:
+            topology.types[new] = topology.types.pop(old)
+
+
+def run_real(lines, rename=None):
     """parse with the real reader, preprocess with the real code; returns (request for the model,
     canonical implementation output, raw observations for the oracle)"""
     from polyply.src.topology import Topology
@@ -259,6 +288,8 @@ def run_real(lines):
     import vermouth.forcefield
     topology = Topology(vermouth.forcefield.ForceField("verif"), name="verif")
     read_topology(lines, topology)
+    if rename:
+        rename_sections(topology, rename)
     blocks = []
     for name, block in topology.force_field.blocks.items():
         nodes = list(block.nodes)
@@ -274,7 +305,8 @@ def run_real(lines):
     pre_nb = snapshot_nonbond(topology.nonbond_params)
     request = dict(op="preprocess",
                    comb_rule=None if comb is None else common.rat_str(comb),
-                   gen_pairs_yes=defaults.get("gen-pairs") == "yes",
+                   gen_pairs_yes=defaults.get("gen-pairs") == "yes",      # the oracle's own reading (op pairspec)
+                   gen_pairs=defaults.get("gen-pairs"),                   # what the model compares with the translated keyword
                    defines=[[k, None if v is True else list(v)] for k, v in topology.defines.items()],
                    atomtypes=[[k, common.rat_str(v["nb1"]), common.rat_str(v["nb2"]), v["bond_type"]]
                               for k, v in topology.atom_types.items()],
@@ -321,12 +353,274 @@ def canon_instances_model(insts):
                         for sec, lst in secs if lst)] for nm, secs in insts]
 
 
+# ------------------------------------------------------------------------------------------------ numbers
+
+# perfect sixth powers whose float sixth root is hit exactly (`x ** (1.0/6.0)`, 1.0/6.0 is not 1/6: in general the
+# result is one or two ulps off, these boundary values are exact): ratio -> sigma
+EXACT_SIXTH = {common.frac(64): common.frac(2), common.frac(1): common.frac(1), common.frac(1) / 64: common.frac(1) / 2}
+
+
+def _iroot(n, deg):
+    """integer deg-th root of n >= 0 if n is a perfect power, else None"""
+    if n < 2:
+        return n
+    lo, hi = 1, 1 << (n.bit_length() // deg + 1)
+    while lo < hi:
+        mid = (lo + hi) // 2
+        if mid ** deg < n:
+            lo = mid + 1
+        else:
+            hi = mid
+    return lo if lo ** deg == n else None
+
+
+def perfect_root(rad, deg):
+    """the rational deg-th root of the rational rad >= 0, or None"""
+    num, den = _iroot(rad.numerator, deg), _iroot(rad.denominator, deg)
+    return None if num is None or den is None else common.frac(num) / den
+
+
+def val_agrees(impl, val, exact):
+    """does the number the real code produced agree with the model value (`Val`)?
+    exact rationals: equal as fractions when `exact` (dyadic inputs, float arithmetic exact), else rel. 1e-9;
+    roots: impl >= 0 and impl^deg = rad at rel. deg*1e-9, and EXACTLY for perfect squares / the boundary sixth powers"""
+    kind = val["k"]
+    if kind == "complex":
+        return isinstance(impl, complex)
+    if isinstance(impl, complex) or isinstance(impl, bool):
+        return False
+    try:
+        got = common.frac(impl)
+    except (TypeError, ValueError, OverflowError):
+        return False
+    if kind == "exact":
+        want = common.rat_parse(val["q"])
+        if exact:
+            return got == want
+        return got == want or abs(got - want) <= abs(want) / 10 ** 9
+    deg, rad = int(val["deg"]), common.rat_parse(val["rad"])
+    if got < 0 or rad < 0:
+        return False
+    if exact:
+        root = perfect_root(rad, deg)
+        if root is not None and (deg == 2 or (deg == 6 and rad in EXACT_SIXTH)):
+            return got == root
+    if rad == 0:
+        return got == 0
+    return abs(got ** deg - rad) <= rad * deg / 10 ** 9
+
+
+def show_num(x):
+    return repr(x) if isinstance(x, complex) else common.rat_str(x)
+
+
+def compare_values(impl_rows, model_rows, exact):
+    """impl rows `[a, b, f, nb1, nb2]` (floats) against model rows `[a, b, src, f, Val, Val]`; returns the canonical
+    pair (impl, model) for ctx.correspond: identical when every number agrees with its model value"""
+    model = {}
+    for a, b, _src, _f, v1, v2 in model_rows:
+        model[tuple(sorted([a, b]))] = (v1, v2)
+    impl_c, model_c = [], []
+    for a, b, _f, x, y in impl_rows:
+        vals = model.pop((a, b), None)
+        if vals is not None and val_agrees(x, vals[0], exact) and val_agrees(y, vals[1], exact):
+            impl_c.append([a, b, "agrees"])
+            model_c.append([a, b, "agrees"])
+        else:
+            impl_c.append([a, b, show_num(x), show_num(y)])
+            model_c.append([a, b, vals])
+    for (a, b), vals in sorted(model.items()):
+        model_c.append([a, b, vals])
+    return impl_c, model_c
+
+
+def pow2(rng, lo=-10, hi=10):
+    return common.frac(2) ** rng.randint(lo, hi)
+
+
+def small_dyadic(rng, bits=4, hi=12):
+    return common.frac(rng.randint(1, hi << bits)) / (1 << bits)
+
+
+def gen_convert(rng, raising=None):
+    """a `nonbond_params` table for a direct call of the real convert_nonbond_to_sig_eps: dyadic values, eps exact
+    (nb2 a power of two) in most entries, sigma on the exact boundary ratios 64 / 1 / 1/64, (0, 0), a few negative
+    ratios (complex sigma), and -- `raising` -- exactly one entry with one zero operand"""
+    entries = []
+    for i in range(rng.randint(1, 4)):
+        roll = rng.random()
+        if roll < 0.3:                               # boundary ratio, eps exact
+            nb1 = pow2(rng, -6, 6)
+            nb2 = nb1 * rng.choice(list(EXACT_SIXTH))
+        elif roll < 0.6:                             # eps exact, sigma generic
+            nb1, nb2 = small_dyadic(rng), pow2(rng)
+        elif roll < 0.8:                             # generic dyadics (eps correctly rounded)
+            nb1, nb2 = small_dyadic(rng), small_dyadic(rng)
+        elif roll < 0.9:
+            nb1, nb2 = common.frac(0), common.frac(0)
+        else:                                        # negative ratio: Python returns a complex sigma
+            nb1, nb2 = -small_dyadic(rng), pow2(rng)
+            if rng.random() < 0.5:
+                nb1, nb2 = -nb1, -nb2
+        entries.append(["T%d" % i, "T%d" % rng.randint(0, i), common.rat_str(nb1), common.rat_str(nb2)])
+    if raising is not None:
+        val = common.rat_str(small_dyadic(rng) * rng.choice([1, -1]))
+        row = ["Z", "Z", "0", val] if raising == "nb1-zero" else ["Z", "Z", val, "0"]
+        entries.insert(rng.randint(0, len(entries)), row)
+    seen, out = set(), []
+    for row in entries:
+        key = frozenset(row[:2])
+        if key not in seen:
+            seen.add(key)
+            out.append(row)
+    return dict(entries=out, raising=raising)
+
+
+def convert_case(data):
+    from polyply.src.topology import Topology
+    import vermouth.forcefield
+    topology = Topology(vermouth.forcefield.ForceField("verif"), name="verif")
+    for a, b, nb1, nb2 in data["entries"]:
+        topology.nonbond_params[frozenset([a, b])] = {"nb1": float(common.rat_parse(nb1)),
+                                                      "nb2": float(common.rat_parse(nb2))}
+    try:
+        topology.convert_nonbond_to_sig_eps()
+        res = [[a, b, topology.nonbond_params[frozenset([a, b])]["nb1"],
+                topology.nonbond_params[frozenset([a, b])]["nb2"]] for a, b, _, _ in data["entries"]]
+        if set(topology.nonbond_params) != set(frozenset(r[:2]) for r in data["entries"]):
+            res = "pairs changed: %s" % sorted(sorted(k) for k in topology.nonbond_params)
+    except Exception as exc:  # pylint: disable=broad-except
+        res = "raised " + type(exc).__name__
+    reqs = [dict(op="convert", nb1=nb1, nb2=nb2) for _, _, nb1, nb2 in data["entries"]]
+    return dict(data=data, res=res, reqs=reqs)
+
+
+def judge_convert(ctx, case, answers):
+    data, res = case["data"], case["res"]
+    replay = dict(kind="convert", data=data)
+    model_raises = any(not ans["ok"] for ans in answers)
+    if isinstance(res, str) or model_raises:
+        impl_outcome = "ok" if not isinstance(res, str) else "raise" if res.startswith("raised") else res
+        ctx.correspond("convert_nonbond_to_sig_eps", impl_outcome, "raise" if model_raises else "ok", replay)
+    else:
+        impl_c, model_c = [], []
+        for (a, b, nb1, nb2), (_, _, sig, eps), ans in zip(data["entries"], res, answers):
+            p2 = common.rat_parse(nb2)
+            eps_exact = p2 != 0 and (abs(p2).numerator == 1 and abs(p2).denominator & (abs(p2).denominator - 1) == 0
+                                     or abs(p2).denominator == 1 and abs(p2).numerator & (abs(p2).numerator - 1) == 0)
+            good = val_agrees(sig, ans["sig"], True) and val_agrees(eps, ans["eps"], eps_exact or p2 == 0)
+            impl_c.append([a, b, "agrees"] if good else [a, b, show_num(sig), show_num(eps)])
+            model_c.append([a, b, "agrees"] if good else [a, b, ans["sig"], ans["eps"]])
+            # the property clause, on positive values: the converted values reproduce the table
+            p1 = common.rat_parse(nb1)
+            if p1 > 0 and p2 > 0 and not isinstance(sig, complex) and not isinstance(eps, complex):
+                fs, fe = common.frac(sig), common.frac(eps)
+                r6, r12 = (4 * fe * fs ** 6 - p1) / p1, (4 * fe * fs ** 12 - p2) / p2
+                if abs(r6) > 1e-9 or abs(r12) > 1e-9:
+                    ctx.oracle_fail("sigeps-not-reproducing", "C6=%s C12=%s converted to sigma=%r eps=%r; 4 eps sig^6 / C6 - 1 "
+                                    "= %.3e, 4 eps sig^12 / C12 - 1 = %.3e" % (nb1, nb2, sig, eps, float(r6), float(r12)),
+                                    replay)
+                ctx.tally(sigeps_checked=True)
+            ctx.tally(convert_entry=ans["sig"]["k"] + ("" if ans["sig"]["k"] != "root" else
+                                                       "-boundary" if common.rat_parse(ans["sig"]["rad"]) in EXACT_SIXTH
+                                                       else ""))
+        ctx.correspond("convert_nonbond_to_sig_eps", impl_c, model_c, replay)
+    ctx.case(json.dumps(data, sort_keys=True), sample=dict(entries=data["entries"], result=str(res)[:300]),
+             convert="raise" if model_raises else "ok")
+
+
+RULE_FUNCS = ["lorentz_berthelot_rule", "geometric_rule"]
+
+
+def gen_combrule(rng, via):
+    """four dyadic numbers for a direct call of a combination-rule function (`via` = its name) or of the real gen_pairs
+    (`via` = rule number 1/2/3) on a two-type topology; products are perfect dyadic squares in half of the cases (square
+    root compared exactly), zeros and (direct calls only) negative products (complex result) occasionally"""
+    def pair():
+        roll = rng.random()
+        if roll < 0.5:                    # product a perfect square: (k u^2) (k v^2)
+            k, u, v = small_dyadic(rng, 2, 6), small_dyadic(rng, 3, 6), small_dyadic(rng, 3, 6)
+            return k * u * u, k * v * v
+        if roll < 0.85:
+            return small_dyadic(rng), small_dyadic(rng)
+        if roll < 0.93 or not isinstance(via, str):
+            return common.frac(0), small_dyadic(rng)
+        return -small_dyadic(rng), small_dyadic(rng)
+    (a, b), (c, d) = pair(), pair()
+    if rng.random() < 0.5:
+        a, b = b, a
+    if rng.random() < 0.5:
+        c, d = d, c
+    if rng.random() < 0.1:               # a type combined with a copy of itself
+        b, d = a, c
+    return dict(via=via, a=common.rat_str(a), b=common.rat_str(b), c=common.rat_str(c), d=common.rat_str(d))
+
+
+def combrule_case(data):
+    """`a, b` are the two nb1 (first two parameters of the rule), `c, d` the two nb2"""
+    from polyply.src import topology as topmod
+    import vermouth.forcefield
+    a, b, c, d = (float(common.rat_parse(data[k])) for k in "abcd")
+    res = {}
+    try:
+        if isinstance(data["via"], str):
+            out = getattr(topmod, data["via"])(a, b, c, d)
+            res["fwd"] = [out[0], out[1]]
+            out = getattr(topmod, data["via"])(b, a, d, c)
+            res["swapped"] = [out[0], out[1]]
+            req = dict(op="combrule", func=data["via"], a=data["a"], b=data["b"], c=data["c"], d=data["d"])
+        else:
+            for tag, order in (("fwd", ["A", "B"]), ("swapped", ["B", "A"])):
+                top = topmod.Topology(vermouth.forcefield.ForceField("verif"), name="verif")
+                top.defaults = {"nbfunc": 1.0, "comb-rule": float(data["via"]), "gen-pairs": "yes"}
+                vals = {"A": {"nb1": a, "nb2": c}, "B": {"nb1": b, "nb2": d}}
+                for name in order:
+                    top.atom_types[name] = vals[name]
+                top.gen_pairs()
+                ent = top.nonbond_params[frozenset(["A", "B"])]
+                res[tag] = [ent["nb1"], ent["nb2"]]
+                res[tag + "_self"] = [[top.nonbond_params[frozenset([n])]["nb1"], top.nonbond_params[frozenset([n])]["nb2"]]
+                                      for n in ("A", "B")]
+            req = dict(op="combrule", rule=str(data["via"]), a=data["a"], b=data["b"], c=data["c"], d=data["d"])
+    except Exception as exc:  # pylint: disable=broad-except
+        res = "raised " + type(exc).__name__
+        req = dict(op="combrule", a=data["a"], b=data["b"], c=data["c"], d=data["d"],
+                   **(dict(func=data["via"]) if isinstance(data["via"], str) else dict(rule=str(data["via"]))))
+    return dict(data=data, res=res, reqs=[req])
+
+
+def judge_combrule(ctx, case, answers):
+    data, res = case["data"], case["res"]
+    replay = dict(kind="combrule", data=data)
+    ans = answers[0]
+    name = "combination rule functions" if isinstance(data["via"], str) else "gen_pairs values"
+    if isinstance(res, str) or not ans["ok"]:
+        ctx.correspond(name, res if isinstance(res, str) else "ok", "ok" if ans["ok"] else "model: " + str(ans), replay)
+    else:
+        good = val_agrees(res["fwd"][0], ans["nb1"], True) and val_agrees(res["fwd"][1], ans["nb2"], True)
+        ctx.correspond(name, "agrees" if good else [show_num(v) for v in res["fwd"]],
+                       "agrees" if good else [ans["nb1"], ans["nb2"]], replay)
+        # property clauses: symmetric in the pair; self terms are the atom types' own values
+        if res["fwd"] != res["swapped"] and not any(isinstance(v, complex) for v in res["fwd"] + res["swapped"]):
+            ctx.oracle_fail("pairs-not-symmetric", "combining (nb1, nb2) = (%s, %s) with (%s, %s) via %s gives %r, the other "
+                            "way round %r" % (data["a"], data["c"], data["b"], data["d"], data["via"], res["fwd"],
+                                              res["swapped"]), replay)
+        if "fwd_self" in res:
+            want = [[float(common.rat_parse(data["a"])), float(common.rat_parse(data["c"]))],
+                    [float(common.rat_parse(data["b"])), float(common.rat_parse(data["d"]))]]
+            if res["fwd_self"] != want or res["swapped_self"] != want:
+                ctx.oracle_fail("pairs-self-term-wrong", "self terms %r / %r, atom types carry %r" %
+                                (res["fwd_self"], res["swapped_self"], want), replay)
+        ctx.tally(combrule=str(data["via"]) + ":" + ans["nb1"]["k"] + "," + ans["nb2"]["k"])
+    ctx.case(json.dumps(data, sort_keys=True), sample=dict(data=data, result=str(res)[:300]))
+
+
 # ------------------------------------------------------------------------------------------------ one case
 
 def topo_case(topo):
     """run the implementation on one generated topology, build the batch of driver requests"""
     lines = render(topo)
-    request, obs = run_real(lines)
+    request, obs = run_real(lines, topo.get("rename"))
     reqs = [request]
     plan = []                                     # what each further request is for
     opls = any(d[0] in ("_FF_OPLS", "_FF_OPLS_AA") for d in request["defines"])
@@ -400,11 +694,18 @@ def topo_case(topo):
     swapped = None
     if obs["err"] is None:
         try:
-            _, obs2 = run_real(render(topo, swap=True))
+            _, obs2 = run_real(render(topo, swap=True), topo.get("rename"))
             swapped = obs2["nb_after"] if obs2["err"] is None else "raised " + str(obs2["err"])
         except Exception as exc:  # pylint: disable=broad-except
             swapped = "raised " + type(exc).__name__
-    return dict(topo=topo, request=request, obs=obs, reqs=reqs, plan=plan, paramless=len(paramless), swapped=swapped)
+    # the same topology as an include tree (same flattened text): preprocessing must resolve it alike
+    tree = None
+    if topo.get("tree") and not topo.get("rename"):
+        files = split_tree(lines)
+        if files is not None:
+            tree = run_real_tree(files)
+    return dict(topo=topo, request=request, obs=obs, reqs=reqs, plan=plan, paramless=len(paramless), swapped=swapped,
+                tree=tree)
 
 
 def judge_topo(ctx, case, answers):
@@ -419,6 +720,12 @@ def judge_topo(ctx, case, answers):
         model_c.update(instances=canon_instances_model(model["instances"]), nonbond=canon_nb_model(model["nonbond"]),
                        converted=model["converted"])
     ctx.correspond("preprocess", impl_c, model_c, replay)
+    if obs["err"] is None and model["ok"]:
+        # the NUMBERS of the pair table: after gen_pairs (combination rules) and when preprocess returns (converted
+        # iff comb-rule == 1).  Decimal inputs: float arithmetic rounds, so 1e-9 (roots: on the radicand)
+        ctx.correspond("pair values after gen_pairs", *compare_values(obs["nb_before"], model["pairs"], False), replay)
+        ctx.correspond("pair values after preprocess", *compare_values(obs["nb_after"], model["final"], False), replay)
+        ctx.tally(pair_values_checked=len(obs["nb_after"]) > 0)
     unresolvable = False
     for item, ans in zip(plan, answers[1:]):
         kind = item[0]
@@ -464,6 +771,22 @@ def judge_topo(ctx, case, answers):
     if obs["err"] is None and case["swapped"] is not None and case["swapped"] != obs["nb_after"]:
         ctx.oracle_fail("pairs-not-symmetric", "listing the atom types (and nonbond_params pairs) the other way "
                         "round changes the pair table: %s vs %s" % (obs["nb_after"], case["swapped"]), replay)
+    tree = case.get("tree")
+    if tree is not None:
+        flat = dict(err=obs["err"]) if obs["err"] is not None else dict(err=None, nb_after=obs["nb_after"],
+                                                                         instances=obs["instances"])
+        if (tree["err"] is None) != (flat["err"] is None):
+            ctx.oracle_fail("include-tree-changes-resolution", "the topology %s as one file but %s when the force field and "
+                            "the molecule types are #included from sub-directories (each with its own ffbonded.itp)"
+                            % ("is resolved" if flat["err"] is None else "raises " + str(flat["err"]),
+                               "is resolved" if tree["err"] is None else "raises " + str(tree["err"])), replay)
+        elif tree["err"] is None and tree != flat:
+            diff = [(a[0], x[0]) for a, b in zip(flat["instances"], tree["instances"]) for x, y in zip(a[1], b[1]) if x != y]
+            ctx.oracle_fail("include-tree-changes-resolution", "preprocessing resolves the topology differently when its "
+                            "force field and molecule types are #included from sub-directories (each with its own "
+                            "ffbonded.itp; same flattened text): differing (molecule, section) %s; nonbond equal: %s"
+                            % (diff[:4], tree["nb_after"] == flat["nb_after"]), replay)
+        ctx.tally(include_tree_checked=True)
     key = json.dumps(topo, sort_keys=True) if case["paramless"] else None
     nmol = sum(c for _, c in topo["molecules"])
     ctx.case(key, sample=dict(lines="".join(render(topo))[:700], result="rejected (%s)" % obs["err"] if obs["err"]
@@ -471,6 +794,67 @@ def judge_topo(ctx, case, answers):
              comb=topo["comb"], gen_pairs=topo["gen_pairs"], outcome="ok" if obs["err"] is None else "reject",
              malformed=topo["malformed"], instances=min(nmol, 6), paramless=min(case["paramless"], 8),
              opls=any(f.startswith("_FF_OPLS") for f in topo["flags"]))
+
+
+# ------------------------------------------------------------------------------------------------ include trees
+
+def split_tree(lines):
+    """The rendered topology cut into an include tree whose flattened text is the rendered text itself: the force
+    field in `ff/forcefield.itp` (defaults, atom types, nonbond_params) which includes `ffbonded.itp` (the first
+    half of the bonded-type sections, i.e. `ff/ffbonded.itp`), the molecule types in `lig/molecules.itp` which starts
+    with an include of ITS OWN `ffbonded.itp` (the second half, `lig/ffbonded.itp` — same written name, other
+    directory, resolved relative to the including file as grompp does), `#define`s, `[ system ]` and `[ molecules ]`
+    in `system.top`.  Every file starts with a section header, every include is followed by one (the class of
+    trees for which C08 proves reading = reading the flattened text)."""
+    text = [l.rstrip("\n") for l in lines]
+    segs, cur = [], None
+    prefix = []
+    for line in text:
+        if line.startswith("[") and not (cur is not None and cur["mol"] and line.strip("[ ]") not in TOP_LEVEL):
+            cur = dict(name=line.strip("[ ]"), lines=[line], mol=line.strip("[ ]") == "moleculetype")
+            segs.append(cur)
+        elif cur is None:
+            prefix.append(line)
+        else:
+            cur["lines"].append(line)
+    ffmain = [l for sg in segs if sg["name"] in ("defaults", "atomtypes", "nonbond_params") for l in sg["lines"]]
+    typesecs = [sg for sg in segs if sg["name"].endswith("types") and sg["name"] != "atomtypes"]
+    half = (len(typesecs) + 1) // 2
+    first = [l for sg in typesecs[:half] for l in sg["lines"]]
+    second = [l for sg in typesecs[half:] for l in sg["lines"]]
+    mols = [l for sg in segs if sg["mol"] for l in sg["lines"]]
+    tail = [l for sg in segs if sg["name"] in ("system", "molecules") for l in sg["lines"]]
+    if not ffmain or not mols or not first or not second:
+        return None
+    files = {"system.top": prefix + ['#include "ff/forcefield.itp"', '#include "lig/molecules.itp"'] + tail,
+             "ff/forcefield.itp": ffmain + ['#include "ffbonded.itp"'],
+             "ff/ffbonded.itp": first,
+             "lig/molecules.itp": ["[ atomtypes ]", '#include "ffbonded.itp"'] + mols,
+             "lig/ffbonded.itp": second}
+    return files
+
+
+TOP_LEVEL = {"defaults", "atomtypes", "nonbond_params", "bondtypes", "angletypes", "dihedraltypes", "constrainttypes",
+             "pairtypes", "moleculetype", "system", "molecules"}
+
+
+def run_real_tree(files):
+    """the real `Topology.from_gmx_topfile` on the tree written to a temporary directory, then the real preprocess"""
+    import tempfile
+    from polyply.src.topology import Topology
+    with tempfile.TemporaryDirectory(prefix="c09_tree_") as tmp:
+        for rel, content in files.items():
+            path = os.path.join(tmp, rel)
+            os.makedirs(os.path.dirname(path), exist_ok=True)
+            with open(path, "w") as handle:
+                handle.write("".join(line + "\n" for line in content))
+        try:
+            topology = Topology.from_gmx_topfile(os.path.join(tmp, "system.top"), "verif")
+            topology.preprocess()
+        except Exception as exc:  # pylint: disable=broad-except
+            return dict(err=type(exc).__name__)
+        return dict(err=None, nb_after=snapshot_nonbond(topology.nonbond_params),
+                    instances=[[m.mol_name, canon_sections(m.molecule.interactions)] for m in topology.molecules])
 
 
 # ------------------------------------------------------------------------------------------------ direct wildcard search
@@ -494,6 +878,38 @@ def gen_match(rng, mask=None):
             keys.add(key)
             table.append([list(key), [[["9", str(len(table))], None]]])
     return dict(atoms=atoms, table=table)
+
+
+def mask_key(base, mask):
+    return ["X" if m else b for b, m in zip(base, mask)]
+
+
+ATOM_SHAPES = [("distinct", ["CT", "CA", "N", "O"]), ("palindrome", ["CT", "CA", "CA", "CT"]), ("same", ["CT", "CT", "CT", "CT"])]
+
+
+def exhaustive_match():
+    """EVERY wildcard mask as the only key of the table: 16 masks x key stored forward / reversed x atoms distinct /
+    palindromic / all the same (each case is searched in both listing directions); and EVERY ordered pair of masks as a
+    two-entry table whose keys both match the atoms: 16 x 16 x each key stored forward / reversed x atoms distinct /
+    palindromic (both listing directions again; the dict order of the two keys is the pair order)."""
+    out = []
+    for shape, atoms in ATOM_SHAPES:
+        for mask in MASKS:
+            for stored_rev in (False, True):
+                key = mask_key(atoms[::-1] if stored_rev else atoms, mask)
+                out.append(dict(atoms=atoms, table=[[key, [[["9", "0"], None]]]], exhaustive="single"))
+    for shape, atoms in ATOM_SHAPES[:2]:
+        for m1 in MASKS:
+            for m2 in MASKS:
+                for rev1 in (False, True):
+                    for rev2 in (False, True):
+                        k1 = mask_key(atoms[::-1] if rev1 else atoms, m1)
+                        k2 = mask_key(atoms[::-1] if rev2 else atoms, m2)
+                        table = [[k1, [[["9", "0"], None]]]]
+                        if k2 != k1:
+                            table.append([k2, [[["9", "1"], None]]])
+                        out.append(dict(atoms=atoms, table=table, exhaustive="pair"))
+    return out
 
 
 def match_case(data):
@@ -535,6 +951,8 @@ def judge_match(ctx, case, answers):
         ctx.oracle_fail("dihedral-direction-dependent", "atoms %s resolve to %s, reversed to %s"
                         % (data["atoms"], res["fwd"], res["rev"]), replay)
     nmatch = len(fwd["matching"])
+    if data.get("exhaustive"):
+        ctx.tally(match_exhaustive=data["exhaustive"])
     ctx.case(json.dumps(data, sort_keys=True) if data["table"] else None,
              sample=dict(atoms=data["atoms"], table=[k for k, _ in data["table"]], result=res),
              match_keys=min(nmatch, 4), match_tie=len(best) > 1,
@@ -562,6 +980,10 @@ def run_inputs(ctx, inputs):
             except Exception as exc:  # pylint: disable=broad-except
                 # the real READER refused the text: C08's business, not a verdict here
                 ctx.tally(reader_failed=type(exc).__name__)
+        elif inp["kind"] == "convert":
+            cases.append(("convert", convert_case(inp["data"])))
+        elif inp["kind"] == "combrule":
+            cases.append(("combrule", combrule_case(inp["data"])))
         else:
             cases.append(("match", match_case(inp["data"])))
     reqs = []
@@ -571,20 +993,29 @@ def run_inputs(ctx, inputs):
     pos = 0
     for kind, case in cases:
         n = len(case["reqs"])
-        (judge_topo if kind == "topology" else judge_match)(ctx, case, answers[pos:pos + n])
+        JUDGES[kind](ctx, case, answers[pos:pos + n])
         pos += n
+
+
+JUDGES = dict(topology=judge_topo, match=judge_match, convert=judge_convert, combrule=judge_combrule)
 
 
 def run(ctx):
     ctx.extra["rule"] = RULE
     ctx.extra["trusted"] = ["vermouth read_itp / Block.to_molecule (instances alias the block's parameter lists)",
-                            "combination-rule arithmetic and the float sixth root (checked through the identities "
-                            "4 eps sig^6 = C6, 4 eps sig^12 = C12 at 1e-9)"]
+                            "float arithmetic: the model computes with the rationals the floats denote; square and sixth "
+                            "roots are specifications (x >= 0, x^deg = radicand) checked exactly on perfect squares / the "
+                            "boundary sixth powers and at 1e-9 otherwise; overflow / underflow are outside the model"]
     ctx.extra["explanation"] = (
         "Proof level: the dihedral theorems (most specific, found-iff, direction symmetry, all 16 masks) follow from three "
         "`decide` facts about the pattern list TRANSLATED from topology.match_dihedral_interaction_types plus a generic "
         "analysis of the search loop; exact/reversed lookup, macro substitution, multi-term expansion into every instance "
-        "(all k, n), the pair-table clauses and the sigma/epsilon identities (over the reals) are proved for all inputs.  "
+        "(all k, n), the pair-table clauses and the sigma/epsilon identities (over the reals) are proved for all inputs; "
+        "convert_nonbond_to_sig_eps is modelled as code (convertEntry/convertTable: reproduces C6/C12 for all positive "
+        "rationals, raises iff exactly one operand is zero), the combination rules and gen_pairs with values (genPairsV: "
+        "symmetric, self combination reproduces the type, refines the provenance table), and the literals of topology.py "
+        "(type-less sections, OPLS macros, the substring test `in \"dihedrals\"`, `yes`, `== 1`) are translated on every run "
+        "(Generated/C09Preprocess.lean; C09_literals by decide).  "
         "The hand-written loop model is tied by the correspondence (direct calls of the real search on random tables over all "
         "masks and both directions, and whole topologies through the real reader + preprocess); the oracle is the Lean "
         "specification (bestKeys/specVerdict/pairsVerdict/sigEpsResidual) evaluated on what the real code wrote.")
@@ -593,14 +1024,29 @@ def run(ctx):
                         "[pairs] lines are not resolved through pairtypes (the code treats them as untyped)"]
     rng = ctx.rng
     inputs = corpus_cases()
-    for mask in MASKS:                            # every mask at least once, alone in the table
-        inputs.append(dict(kind="match", data=gen_match(rng, mask=mask)))
-    for _ in range(ctx.budget(1500, 12000)):
+    exhaustive = exhaustive_match()               # every mask / every pair of masks, see exhaustive_match
+    for data in exhaustive:
+        inputs.append(dict(kind="match", data=data))
+    ctx.extra["exhaustive"] = ("wildcard search: all 16 masks x stored forward/reversed x 3 atom shapes (single-entry tables) "
+                               "and all 16x16 mask pairs x 4 storage orientations x 2 atom shapes, each in both listing "
+                               "directions: %d tables, exhaustive" % len(exhaustive))
+    for _ in range(ctx.budget(700, 12000)):
         inputs.append(dict(kind="match", data=gen_match(rng)))
+    # direct calls of the real convert_nonbond_to_sig_eps / combination rules / gen_pairs on dyadic numbers
+    for i in range(ctx.budget(240, 3000)):
+        raising = [None, None, None, "nb1-zero", "nb2-zero"][i % 5]
+        inputs.append(dict(kind="convert", data=gen_convert(rng, raising=raising)))
+    for i in range(ctx.budget(300, 3000)):
+        via = (RULE_FUNCS + [1, 2, 3])[i % 5]
+        inputs.append(dict(kind="combrule", data=gen_combrule(rng, via)))
     for i in range(ctx.budget(220, 2500)):
         malformed = rng.choice(["flag-as-parameter", "no-defaults", "unknown-comb-rule", "missing-type"]) \
             if rng.random() < 0.08 else None
-        inputs.append(dict(kind="topology", topo=gen_topology(rng, malformed=malformed, big=ctx.thorough and i % 3 == 0)))
+        if malformed is None and i % 8 == 7:
+            malformed = "renamed-sections"
+        topo = gen_topology(rng, malformed=malformed, big=ctx.thorough and i % 3 == 0)
+        topo["tree"] = i % 3 == 1                   # every third topology is also read as an include tree
+        inputs.append(dict(kind="topology", topo=topo))
     chunk = 400
     for start in range(0, len(inputs), chunk):
         run_inputs(ctx, inputs[start:start + chunk])
